@@ -289,7 +289,47 @@ class Session:
                     raise Violation(key, f"[{vname}] message {i}: decoded {got!r}, sent {want!r}; raw={raw[:300]!r}; cfg={self.cfg}"[:1800])
 
 
+def expand(data, limit=None):
+    """b'\\x00BIG' + 2 bytes stands for a deterministic large blob (around / beyond 64 KiB)."""
+    if isinstance(data, (bytes, bytearray)) and data[:4] == b"\x00BIG" and len(data) >= 6:
+        n = (65500, 65536, 70001, 131080)[data[4] % 4]
+        if limit is not None:
+            n = min(n, limit)
+        return random.Random(data[5]).randbytes(n)
+    return data
+
+
+def output_in_body(cfg):
+    """True when the http-post output block terminates with print (large callbacks then travel in the body)."""
+    cur = None
+    for n, a in cfg["post_steps"]:
+        if n == "BUILD":
+            cur = a
+        elif cur == "output" and n in ("PRINT", "HEADER", "PARAMETER", "URI_APPEND"):
+            return n == "PRINT"
+    return False
+
+
 def apply_op(sess, op):
+    op = list(op)
+    big_ok = output_in_body(sess.cfg)
+    # at most one large blob per session (every message is re-decoded by fresh decoders after every step)
+    budget = [None if getattr(sess, "big_used", 0) < 1 else 900]
+
+    def ex(d, limit=None):
+        lim = limit if budget[0] is None else min(limit or budget[0], budget[0])
+        out = expand(d, lim)
+        if len(out) > 60000:
+            sess.big_used = getattr(sess, "big_used", 0) + 1
+            budget[0] = 900
+        return out
+
+    if op[0] == "checkin" and op[1] is not None:
+        op[1] = (op[1][0], ex(op[1][1]))
+    elif op[0] == "callback":
+        op[2] = ex(op[2], None if big_ok else 1500)
+    elif op[0] == "multi":
+        op[1] = [(c, ex(d, None if big_ok else 700)) for c, d in op[1]]
     kind = op[0]
     if kind == "checkin":
         sess.checkin(tuple(op[1]) if op[1] is not None else None)
@@ -315,6 +355,7 @@ def finish(sess, case, stats):
             "uri_append" if any(n == "URI_APPEND" for n, _ in sess.cfg["get_steps"] + sess.cfg["post_steps"]) else "no_uri_append",
             "verbs_%s_%s" % (sess.cfg["verb_get"], sess.cfg["verb_post"]),
             "tasks" if sess.ntasks else "no_tasks",
+            "large_packet" if any(len(r) > 60000 for r, _ in sess.messages) else "small_packets",
         ],
     )
 
@@ -329,8 +370,9 @@ init_strategy = st.fixed_dictionaries(
         "masks": st.lists(st.binary(min_size=4, max_size=4), min_size=8, max_size=8),
     }
 )
-task_st = st.tuples(st.sampled_from(COMMANDS), S.binary(0, 40))
-cb_st = st.tuples(st.sampled_from(CALLBACKS), S.binary(0, 60))
+_big = st.tuples(st.integers(0, 3), st.integers(0, 255)).map(lambda t: b"\x00BIG" + bytes(t))
+task_st = st.tuples(st.sampled_from(COMMANDS), st.integers(0, 39).flatmap(lambda i: _big if i == 0 else S.binary(0, 40)))
+cb_st = st.tuples(st.sampled_from(CALLBACKS), st.integers(0, 39).flatmap(lambda i: _big if i == 0 else S.binary(0, 60)))
 
 
 def machine(stats, rec):
